@@ -45,13 +45,6 @@ m("c01_structure_before_augment", ["C01", "C06"], [(BLD,
             .try_for_each(|edge| {
                 graph_structure""")], "scheduling structures copied before data edges are added (counts include them)")
 # ---------------------------------------------------------------- C02
-m("c02_done_before_await", ["C02"], [(FG,
-  """                        let r#fn = fn_refs.node_weight(fn_id).expect("Expected to borrow fn.");
-                        fn_for_each(r#fn).await;
-                        fn_done_send_locked(fn_done_tx, fn_id).await;""",
-  """                        let r#fn = fn_refs.node_weight(fn_id).expect("Expected to borrow fn.");
-                        fn_done_send_locked(fn_done_tx, fn_id).await;
-                        fn_for_each(r#fn).await;""")], "for_each_concurrent signals done before awaiting the user future")
 m("c02_reverse_uses_incoming", ["C02"], [(FG,
   "StreamOrder::Reverse => (graph_structure_rev, edge_counts.outgoing().to_vec()),",
   "StreamOrder::Reverse => (graph_structure_rev, edge_counts.incoming().to_vec()),")], "reverse order with incoming counts")
@@ -174,12 +167,6 @@ m("c06_one_successor_per_notification", ["C06", "C04"], [(FG,
 
                 QueuerStreamState {""")], "queuer releases at most one successor per notification")
 # ---------------------------------------------------------------- C07
-m("c07_keep_done_tx_on_error", ["C07"], [(FG,
-  """                            // Close `fn_done_rx`, which means `fn_ready_queuer` should return
-                            // `Poll::Ready(None)`.
-                            fn_done_tx.write().await.take();
-""",
-  """""", 0)], "try_for_each_concurrent (non-mut) keeps scheduling dependents after an error")
 m("c07_result_channel_capacity_1", ["C07", "C04"], [(FG,
   """        let channel_capacity = std::cmp::max(1, graph_structure.node_count());
         let (result_tx, mut result_rx) = mpsc::channel(channel_capacity);
@@ -255,35 +242,6 @@ m("c09_control_continue_on_interrupted", ["C09"], [(FG,
                 StreamOutcomeState::Finished | StreamOutcomeState::Interrupted => ControlFlow::Continue(outcome),
             },""")], "try_for_each_concurrent_control_with returns Continue for an interrupted run")
 # ---------------------------------------------------------------- C10
-m("c10_limit_none", ["C10"], [(FG,
-  """            .for_each_concurrent(
-                limit,
-                |#[cfg(not(feature = "interruptible"))] fn_id,
-                 #[cfg(feature = "interruptible")] fn_id_poll_outcome| async move {
-                    #[cfg(not(feature = "interruptible"))]
-                    let fn_id = Some(fn_id);
-                    #[cfg(feature = "interruptible")]
-                    let (fn_id, interrupted) = fn_id_from_interrupt(fn_id_poll_outcome);
-
-                    if let Some(fn_id) = fn_id {
-                        let mut r#fn = fn_mut_refs[fn_id.index()]
-                            .try_write()
-                            .expect("Expected to borrow fn mutably.");
-                        fn_for_each(&mut r#fn).await;""",
-  """            .for_each_concurrent(
-                limit.into().map(|l| l + 1),
-                |#[cfg(not(feature = "interruptible"))] fn_id,
-                 #[cfg(feature = "interruptible")] fn_id_poll_outcome| async move {
-                    #[cfg(not(feature = "interruptible"))]
-                    let fn_id = Some(fn_id);
-                    #[cfg(feature = "interruptible")]
-                    let (fn_id, interrupted) = fn_id_from_interrupt(fn_id_poll_outcome);
-
-                    if let Some(fn_id) = fn_id {
-                        let mut r#fn = fn_mut_refs[fn_id.index()]
-                            .try_write()
-                            .expect("Expected to borrow fn mutably.");
-                        fn_for_each(&mut r#fn).await;""")], "for_each_concurrent_mut runs limit+1 futures")
 # ---------------------------------------------------------------- C11 / C12
 m("c11_data_edges_labelled_logic", ["C11", "C06", "C12"], [(AUG,
   ".update_edge(fn_id, fn_id_next, Edge::Data)", ".update_edge(fn_id, fn_id_next, Edge::Logic)")], "data edges get kind Logic")
@@ -397,24 +355,6 @@ m("c19_fnref_not_send", ["C19"], [(FNREF,
                             fn_done_tx: fn_done_tx.clone(),
                             marker: std::marker::PhantomData,
                         }""")], "FnRef carries a !Send marker")
-m("c19_rc_in_for_each", ["C19"], [(FG,
-  """        let fn_done_tx = &fn_done_tx;
-        let fn_for_each = &fn_for_each;
-        let fns_remaining = &fns_remaining;
-        let fn_refs = graph;
-""",
-  """        let fn_done_tx = &fn_done_tx;
-        let fn_for_each = &fn_for_each;
-        let fns_remaining = &fns_remaining;
-        let fn_refs = graph;
-        let started = std::rc::Rc::new(std::cell::Cell::new(0usize));
-        let started = &started;
-"""), (FG,
-  """                        let r#fn = fn_refs.node_weight(fn_id).expect("Expected to borrow fn.");
-                        fn_for_each(r#fn).await;""",
-  """                        let r#fn = fn_refs.node_weight(fn_id).expect("Expected to borrow fn.");
-                        started.set(started.get() + 1);
-                        fn_for_each(r#fn).await;""")], "an Rc counter lives across awaits in for_each_concurrent")
 # ---------------------------------------------------------------- C20 / C15
 m("c20_static_remaining_counter", ["C20"], [(FG,
   """    let fn_done_tx = RwLock::new(Some(fn_done_tx));
@@ -449,7 +389,7 @@ m("c01_structure_and_counts_before_augment", ["C01"], [(BLD,
             .iter()
             .try_for_each(|edge| {
                 graph_structure""")], "scheduling structures and counts taken before data edges are added")
-m("c03_remaining_capped_64", ["C03", "C09"], [(FG,
+m("c03_remaining_capped_64", ["C09", "C04"], [(FG,
   """    let fns_remaining = graph_structure.node_count();
     let fns_remaining = RwLock::new(fns_remaining);""",
   """    let fns_remaining = graph_structure.node_count().min(64);
@@ -476,3 +416,54 @@ m("c13_rank_ignores_contains_edges", ["C13"], [(RANK,
                         return;
                     }
                     let child_rank_existing = ranks[child_fn_id.index()];""")], "contains edges do not count towards the rank")
+
+# ---------------------------------------------------------------- third batch (rewritten after fix D changed the per-item closures)
+m("c02_done_before_await", ["C02"], [(FG,
+  """                        if let Some((fn_id, fn_fut)) = fn_fut {
+                            fn_fut.await;
+                            fn_done_send_locked(fn_done_tx, fn_id).await;""",
+  """                        if let Some((fn_id, fn_fut)) = fn_fut {
+                            fn_done_send_locked(fn_done_tx, fn_id).await;
+                            fn_fut.await;""")], "for_each_concurrent signals done before awaiting the user future")
+m("c07_keep_done_tx_on_error", ["C07"], [(FG,
+  """                                // Close `fn_done_rx`, which means `fn_ready_queuer` should return
+                                // `Poll::Ready(None)`.
+                                fn_done_tx.write().await.take();
+""",
+  """""", 0)], "try_for_each_concurrent (non-mut) keeps scheduling dependents after an error")
+m("c10_limit_plus_one", ["C10"], [(FG,
+  """            .for_each_concurrent(
+                limit,
+""",
+  """            .for_each_concurrent(
+                limit.into().map(|l| l + 1),
+""", 1)], "for_each_concurrent_mut runs limit+1 futures")
+m("c19_rc_in_for_each", ["C19"], [(FG,
+  """        let fn_done_tx = &fn_done_tx;
+        let fn_for_each = &fn_for_each;
+        let fns_remaining = &fns_remaining;
+        let fn_refs = graph;
+""",
+  """        let fn_done_tx = &fn_done_tx;
+        let fn_for_each = &fn_for_each;
+        let fns_remaining = &fns_remaining;
+        let fn_refs = graph;
+        let started = std::rc::Rc::new(std::cell::Cell::new(0usize));
+        let started = &started;
+"""), (FG,
+  """                        if let Some((fn_id, fn_fut)) = fn_fut {
+                            fn_fut.await;
+                            fn_done_send_locked(fn_done_tx, fn_id).await;""",
+  """                        if let Some((fn_id, fn_fut)) = fn_fut {
+                            started.set(started.get() + 1);
+                            fn_fut.await;
+                            fn_done_send_locked(fn_done_tx, fn_id).await;""")], "an Rc counter lives across awaits in for_each_concurrent")
+m("c08_lazy_closure_call", ["C08"], [(FG,
+  """                    let fn_fut = fn_id.map(|fn_id| {
+                        let r#fn = fn_refs.node_weight(fn_id).expect("Expected to borrow fn.");
+                        (fn_id, fn_for_each(r#fn))
+                    });""",
+  """                    let fn_fut = fn_id.map(|fn_id| {
+                        let r#fn = fn_refs.node_weight(fn_id).expect("Expected to borrow fn.");
+                        (fn_id, async move { fn_for_each(r#fn).await })
+                    });""")], "defect D again in for_each_concurrent: the user's closure is called at the first poll of the per-item future")
